@@ -43,9 +43,9 @@ impl DisjointSetUnion {
 
     fn root(&mut self, x: usize) -> usize {
         let mut parent = x;
-        while parent != self.parents[x] {
-            self.parents[x] = self.parents[self.parents[x]]; //path compression
-            parent = self.parents[x];
+        while parent != self.parents[parent] {
+            self.parents[parent] = self.parents[self.parents[parent]]; //path compression
+            parent = self.parents[parent];
         }
         parent
     }
